@@ -99,7 +99,7 @@ func c19Eval(tier string, i int) CaseResult {
 		}
 		cl, err := ss.client(opts...)
 		if err != nil {
-			viol = append(viol, V("harness", "%v", err))
+			viol = append(viol, V("setup-handshake-fails", "setting the scenario up with well-behaved peers fails: %v", err))
 			return
 		}
 		cl.SetRootsProvider(staticRoots{[]mcp.Root{{URI: "file:///r"}}})
